@@ -346,7 +346,7 @@ func Harness_C11_init() {
 // its context cancelled.
 func Harness_C11_subscribe() {
 	c11Subprotocol = graphqltransportwsSubprotocol
-	ex := &c11Exec{mode: zzsym.Choice("verdict", 3), payloads: zzsym.Choice("payloads", 3), panicAt: zzsym.Choice("panicAt", 4) - 1, subErr: zzsym.Bool("subErr")}
+	ex := &c11Exec{mode: zzsym.Choice("verdict", 3), payloads: zzsym.Choice("payloads", zzsym.Param("maxpayloads", 2)+1), panicAt: zzsym.Choice("panicAt", zzsym.Param("maxpayloads", 2)+2) - 1, subErr: zzsym.Bool("subErr")}
 	me := &c11ME{}
 	cf := &c11Conf{}
 	c := c11New(me, ex, cf, 0)
